@@ -592,6 +592,7 @@ func props() []rp.Prop {
 		rp.P[discCase]{Name: "hook-discovery", Checks: ev.Pick(24000, 3000000) / ev.Shards(), Gen: genCase("hook"), Check: check},
 		rp.P[discCase]{Name: "socket-discovery", Checks: ev.Pick(320, 19200) / ev.Shards(), Gen: genCase("socket"), Sweep: sweepCounts, Check: check},
 		rp.P[burstCase]{Name: "burst", Sweep: sweepBurst, Check: checkBurst},
+		rp.P[stallCase]{Name: "debug-output-stalls", Sweep: sweepStall, Check: checkStall},
 	}
 }
 
